@@ -166,6 +166,56 @@ Theorem C07_membership_union_types_only : forall sw L ns canon sup root evs st,
 Proof. exact membership_union_types. Qed.
 Print Assumptions C07_membership_union_types_only.
 
+(* ---- several transformations (roots) in one graph ---- *)
+
+(* [runr]: every event carries the root of its add_expr call; type nodes and
+   triples are shared.  The membership sets of a root are exactly the unions
+   over the concepts added under THAT root -- whatever types the other
+   transformations in the graph already have *)
+Theorem C07_containsType_per_root : forall sw L ns H canon, wf_hier H -> Forall (wf_ty H) canon ->
+  forall res st,
+  runr sw L ns canon (csup H canon) res (tinit sw L ns canon) = Some st ->
+  forall r o, In (r, PContainsType, o) (t_tr st) <->
+    exists e, In (r, e) res /\ typed sw canon e = true /\
+      ((w_membership sw = true /\ tfind (ev_ty e) (t_memo st) = Some o) \/
+       (w_membership_super sw = true /\ In (ev_ty e) canon /\
+        exists s u, In s canon /\ Sub H (ev_ty e) s /\ s <> ev_ty e /\
+                    uri L ns canon s = Some u /\ o = TUri u)).
+Proof. exact containsType_per_root. Qed.
+Print Assumptions C07_containsType_per_root.
+
+Theorem C07_containsOperation_per_root : forall sw L ns canon sup res st,
+  runr sw L ns canon sup res (tinit sw L ns canon) = Some st ->
+  forall r o, In (r, PContainsOperation, o) (t_tr st) <->
+    w_operators sw = true /\ w_membership sw = true /\
+    exists c j out im, In (r, EvOp c j out im) res /\ o = TUri (uri_op L ns (OOp j)).
+Proof. exact runr_membership_ops. Qed.
+Print Assumptions C07_containsOperation_per_root.
+
+(* all annotation triples, per event and its root *)
+Theorem C07_triples_exact_per_root : forall sw L ns canon sup res st,
+  runr sw L ns canon sup res (tinit sw L ns canon) = Some st ->
+  forall x, is_descr x = false ->
+    (In x (t_tr st) <-> exists r e, In (r, e) res /\ EvSpec sw L ns canon sup r e (t_memo st) x).
+Proof. exact runr_annot_exact. Qed.
+Print Assumptions C07_triples_exact_per_root.
+
+(* one root is the special case *)
+Theorem C07_run_is_runr : forall sw L ns canon sup root evs st,
+  run sw L ns canon sup root evs st = runr sw L ns canon sup (map (pair root) evs) st.
+Proof. exact run_runr. Qed.
+Print Assumptions C07_run_is_runr.
+
+(* add_expr once per transformation: distinct nodes across all of them, and
+   every event carries the root of the call that visited its expression *)
+Theorem C07_roots_nodes : forall res g g' evs, concepts_roots res g = Some (g', evs) ->
+  g_next g <= g_next g' /\
+  (forall r v, In (r, v) evs -> exists k, ev_cur v = TEn k /\ g_next g <= k < g_next g') /\
+  NoDup (map (fun p => ev_cur (snd p)) evs) /\
+  (forall r v, In (r, v) evs -> exists e l, In (r, e) res /\ In l (cleaves e) /\ ev_of_leaf v l).
+Proof. exact concepts_roots_nodes. Qed.
+Print Assumptions C07_roots_nodes.
+
 (* ---- type nodes ---- *)
 
 (* a type gets a URI exactly when Language.uri has one for it (canonical
@@ -320,3 +370,17 @@ Qed.
 Theorem C07_example_membership_is_In : forall tr x, tr_has tr x = true <-> In x tr.
 Proof. exact tr_has_In. Qed.
 Print Assumptions C07_example_membership_is_In.
+
+(* two transformations with different roots and the same types in one graph:
+   the second root has the supertype members too *)
+Definition exR1 : term := TUri [114; 49].
+Definition exR2 : term := TUri [114; 50].
+Definition exE2 : cexpr := CApp 10 (COp 11 0 (TOp 6 [])) (CSrc 12 (TOp 7 [])) false.
+Example ex_two_roots : exists g st,
+  annot_roots exSw exL exNs exCanon (csup exH exCanon) [(exR1, exE2); (exR2, exE2)] = Some (g, st) /\
+  g_next g = 4 /\
+  forallb (tr_has (t_tr st))
+    [ (exR1, PContainsType, TUri (exNs ++ [65])); (exR2, PContainsType, TUri (exNs ++ [65]));
+      (exR1, PContainsType, TUri (TFns ++ [84; 111; 112])); (exR2, PContainsType, TUri (TFns ++ [84; 111; 112]));
+      (exR1, PContainsOperation, TUri (exNs ++ [102; 48])); (exR2, PContainsOperation, TUri (exNs ++ [102; 48])) ] = true.
+Proof. eexists. eexists. split; [vm_compute; reflexivity|]. vm_compute. repeat split. Qed.
